@@ -66,6 +66,136 @@ def _safe(s):
 
 
 # --------------------------------------------------------------------------
+# scheduler: one forked child per task (a multiprocessing.Pool waits for ever when a worker is
+# killed - out of memory, a crash inside a solver library - so every task gets its own
+# process, a pipe, and a hard wall-clock limit; a child that dies or overruns is reported as
+# undecided for that contract, never as a violation and never as a pass)
+
+
+def _worker_loop(conn):
+    try:    # a runaway path (a changed loop that never ends while allocating) must not take the
+        import resource   # machine down: cap the address space, the task then fails on its own
+        cap = int(os.environ.get("VERIF_WORKER_MEM_GB", "6")) << 30
+        resource.setrlimit(resource.RLIMIT_AS, (cap, cap))
+    except BaseException:
+        pass
+    while True:
+        try:
+            msg = conn.recv()
+        except (EOFError, OSError):
+            return
+        if msg is None:
+            return
+        kind, task = msg
+        try:
+            r = (_work if kind == "c" else _work_bounded)(task)
+        except BaseException as e:  # pragma: no cover - the workers catch their own errors
+            r = {"died": "%s: %s" % (type(e).__name__, e)}
+        try:
+            conn.send(r)
+        except BaseException as e:
+            conn.send({"died": "result not transferable: %s: %s" % (type(e).__name__, e)})
+
+
+class _Worker:
+    def __init__(self, ctx):
+        self.conn, child = ctx.Pipe(duplex=True)
+        self.proc = ctx.Process(target=_worker_loop, args=(child,), daemon=True)
+        self.proc.start()
+        child.close()
+        self.job = None      # (kind, idx, task, t_start, limit)
+        self.done = 0
+
+    def stop(self, kill=False):
+        try:
+            if kill:
+                self.proc.kill()
+            else:
+                self.conn.send(None)
+        except BaseException:
+            pass
+        self.proc.join(10)
+        if self.proc.is_alive():
+            self.proc.kill()
+            self.proc.join(10)
+        try:
+            self.conn.close()
+        except BaseException:
+            pass
+
+
+def _run_all(tasks, btasks, jobs, tasks_per_worker=8):
+    """Persistent forked workers (recycled every few tasks).  Unlike multiprocessing.Pool, a
+    worker that is killed (out of memory, a crash inside a solver library) or overruns its hard
+    wall-clock limit loses only its current task, which is reported as undecided."""
+    from multiprocessing.connection import wait as mp_wait
+
+    ctx = mp.get_context("fork")
+    queue = [("b", i, t) for i, t in enumerate(btasks)] + [("c", i, t) for i, t in enumerate(tasks)]
+    res = {"c": [None] * len(tasks), "b": [None] * len(btasks)}
+
+    def limit_for(kind, task):
+        if kind == "c":
+            c = core.REGISTRY[task[0]]
+            return c.__class__.__dict__.get("deadline_s", 900) * 2 + 300
+        return 4 * 3600
+
+    def lost(kind, task, why):
+        if kind == "c":
+            return {"key": task[0], "variant": task[1], "died": why, "obligations": [], "info": {"contract": task[0]}}
+        b = __import__("pyvc.bounded", fromlist=["REGISTRY"]).REGISTRY[task[0]]
+        return {"name": task[0], "kind": b.kind, "bound": b.bound, "evaluations": 0, "violations": [], "undecided": ["worker: " + why]}
+
+    workers = []
+    qi = 0
+    n_total = len(queue)
+    n_done = 0
+    while n_done < n_total:
+        # hand out work
+        while qi < n_total:
+            w = next((w for w in workers if w.job is None), None)
+            if w is None:
+                if len(workers) >= jobs:
+                    break
+                w = _Worker(ctx)
+                workers.append(w)
+            kind, idx, task = queue[qi]
+            qi += 1
+            w.job = (kind, idx, task, time.time(), limit_for(kind, task))
+            w.conn.send((kind, task))
+        busy = [w for w in workers if w.job is not None]
+        ready = mp_wait([w.conn for w in busy], timeout=5)
+        now = time.time()
+        for w in busy:
+            kind, idx, task, t0, lim = w.job
+            if w.conn in ready:
+                try:
+                    r = w.conn.recv()
+                    if "died" in r and "key" not in r and "name" not in r:
+                        r = lost(kind, task, r["died"])
+                    dead = False
+                except (EOFError, OSError):
+                    w.proc.join(5)
+                    r = lost(kind, task, "worker process ended without a result (exit code %s)" % w.proc.exitcode)
+                    dead = True
+                res[kind][idx] = r
+                n_done += 1
+                w.job = None
+                w.done += 1
+                if dead or w.done >= tasks_per_worker:
+                    w.stop(kill=dead)
+                    workers.remove(w)
+            elif now - t0 > lim:
+                res[kind][idx] = lost(kind, task, "hard wall-clock limit of %d s exceeded; worker killed" % lim)
+                n_done += 1
+                w.stop(kill=True)
+                workers.remove(w)
+    for w in workers:
+        w.stop()
+    return res["c"], res["b"]
+
+
+# --------------------------------------------------------------------------
 # worker
 
 
@@ -153,14 +283,7 @@ def run_property(pid: str, tier: str, seed: int, jobs: int = None, only=None):
 
     jobs = jobs or int(os.environ.get("VERIF_JOBS", "0")) or min(16, os.cpu_count() or 4)
     results, bresults = [], []
-    ctx = mp.get_context("fork")
-    with ctx.Pool(jobs, maxtasksperchild=8) as pool:
-        ar = [pool.apply_async(_work, (t,)) for t in tasks]
-        br = [pool.apply_async(_work_bounded, (t,)) for t in btasks]
-        for a in ar:
-            results.append(a.get())
-        for b in br:
-            bresults.append(b.get())
+    results, bresults = _run_all(tasks, btasks, jobs)
 
     # ---- aggregate --------------------------------------------------------------
     lines, exit_code = [], 0
@@ -179,6 +302,11 @@ def run_property(pid: str, tier: str, seed: int, jobs: int = None, only=None):
     all_names = []
 
     for r in results:
+        if "died" in r:
+            c = reg[r["key"]]
+            vname = c.cname() + ("" if r["variant"] is None else "[%s]" % (r["variant"],))
+            undecided.append({"obligation": vname + "/worker", "reason": r["died"]})
+            continue
         if "crash" in r:
             lines.append("CHECKER-ERROR property=%s contract=%s %s" % (pid, r["key"], r["crash"]))
             sys.stderr.write(r.get("trace", "") + "\n")
